@@ -14,6 +14,20 @@ from esrally.track import loader, track
 from esrally.utils import console, net
 
 
+class DuckTypedSource:
+    """A class-based custom parameter source as a track plugin registers it."""
+
+    def __init__(self, track, params, **kwargs):
+        self.corpora = [c for c in track.corpora if c.name == params["corpus"]]
+        self.infinite = False
+
+    def partition(self, partition_index, total_partitions):
+        return self
+
+    def params(self):
+        raise StopIteration()
+
+
 class HangDetected(BaseException):
     """Raised by the substituted sleep when the code under test pauses more often than any retry budget allows."""
 
@@ -84,6 +98,9 @@ def install():
         return orig_request(method, url, **kwargs)
 
     net._request = _request
+    from esrally.track import params as track_params
+
+    track_params.register_param_source_for_name("c14-duck-typed-source", DuckTypedSource)
     for k in ("http_proxy", "https_proxy", "all_proxy", "HTTP_PROXY", "HTTPS_PROXY", "ALL_PROXY"):
         os.environ.pop(k, None)
 
@@ -152,6 +169,11 @@ def call(spec, base_url):
                 uncompressed_size_in_bytes=len(body), target_index="idx")])))
         order = {0: [corpus, decoys[0][1], decoys[1][1]], 1: [decoys[0][1], corpus, decoys[1][1]], 2: [decoys[0][1], decoys[1][1], corpus]}[spec.get("position", 0) % 3]
         schedule = [track.Task(f"bulk-{c.name}", track.Operation(f"bulk-{c.name}", "bulk", params={"bulk-size": 10, "corpora": c.name})) for c in order]
+        # one of the sibling corpora is used through a parameter source of the track's own that is no subclass of rally's bulk source; it
+        # tells which corpora it needs the way rally asks every parameter source of the challenge (loader.used_corpora: a `corpora` attribute)
+        for n, c in enumerate(order):
+            if c.name == "c14-decoy-z":
+                schedule[n] = track.Task("custom-c14-decoy-z", track.Operation("custom-c14-decoy-z", "bulk", params={"corpus": c.name}, param_source="c14-duck-typed-source"))
         t = track.Track(name=os.path.basename(track_dir), corpora=order, challenges=[track.Challenge("c", default=True, schedule=schedule)])
         tp = loader.DefaultTrackPreparator()
         tp.cfg, tp.downloader, tp.decompressor = cfg, prep.downloader, prep.decompressor
